@@ -356,9 +356,70 @@ func c15CallClones(r *rand.Rand) Case {
 	return Case{Kind: "exec-equivalence", Desc: map[string]any{"op": "call cloned against changing data"}, Fail: fail, Nontrivial: true, Key: fmt.Sprint("callclones", r.Int())}
 }
 
+// operations that carry a nested action (define, forEach, loop): the clone's nested action is a clone too — its templated
+// text fields hold the rendered text, the original's hold the template, and an edit of the clone's nested operations or steps
+// is not an edit of the original's
+func c15NestedClones(r *rand.Rand) Case {
+	var fail []string
+	mkSpec := func() pipeline.ActionSpec {
+		a := pipeline.ActionSpec{}
+		a.Operations.Log = &pipeline.LogOp{Message: "m={{ .x }}"}
+		inner := pipeline.ActionSpec{}
+		inner.Operations.Log = &pipeline.LogOp{Message: "inner={{ .x }}"}
+		a.Children = pipeline.ChildActions{"step": inner}
+		return a
+	}
+	kind := r.Intn(3)
+	var orig pipeline.Action
+	var nested func(a pipeline.Action) *pipeline.ActionSpec
+	switch kind {
+	case 0:
+		orig = &pipeline.DefineOp{Name: "f", Action: mkSpec()}
+		nested = func(a pipeline.Action) *pipeline.ActionSpec { return &a.(*pipeline.DefineOp).Action }
+	case 1:
+		v := "it"
+		orig = &pipeline.ForEachOp{Item: &pipeline.ValOrRefSlice{&pipeline.ValOrRef{Val: "p"}}, Variable: &v, Action: mkSpec()}
+		nested = func(a pipeline.Action) *pipeline.ActionSpec { return &a.(*pipeline.ForEachOp).Action }
+	default:
+		orig = &pipeline.LoopOp{Test: "false", Action: mkSpec()}
+		nested = func(a pipeline.Action) *pipeline.ActionSpec { return &a.(*pipeline.LoopOp).Action }
+	}
+	name := []string{"define", "forEach", "loop"}[kind]
+	pn := guard(func() {
+		d := anyToContainer(map[string]any{"x": "X"})
+		ex := pipeline.New(pipeline.WithData(d))
+		var clone pipeline.Action
+		_ = ex.Execute(&cloneProbe{run: func(ctx pipeline.ActionContext) { clone = orig.CloneWith(ctx) }})
+		cn, on := nested(clone), nested(orig)
+		if cn.Operations.Log == nil || cn.Operations.Log.Message != "m=X" || cn.Children["step"].Operations.Log == nil || cn.Children["step"].Operations.Log.Message != "inner=X" {
+			fail = append(fail, "the nested action of a cloned "+name+" operation does not hold the rendered text of its templated fields")
+		}
+		if on.Operations.Log.Message != "m={{ .x }}" || on.Children["step"].Operations.Log.Message != "inner={{ .x }}" {
+			fail = append(fail, "cloning a "+name+" operation rendered the ORIGINAL's nested action")
+		}
+		if cn.Operations.Log != nil {
+			cn.Operations.Log.Message = "edited in the clone"
+		}
+		if cn.Children != nil {
+			cn.Children["added-to-the-clone"] = pipeline.ActionSpec{}
+			delete(cn.Children, "step")
+		}
+		if on.Operations.Log.Message != "m={{ .x }}" || len(on.Children) != 1 || on.Children["step"].Operations.Log == nil {
+			fail = append(fail, "an edit of the clone's nested action shows in the original "+name+" operation (shared operation objects or steps map)")
+		}
+	})
+	if pn != "" {
+		fail = append(fail, "panic: "+pn)
+	}
+	return Case{Kind: "exec-equivalence", Desc: map[string]any{"op": name + " with a nested action, cloned, clone edited"}, Fail: fail, Nontrivial: true, Key: fmt.Sprint("nestedclones", kind, r.Int())}
+}
+
 func c15Exec(r *rand.Rand) Case {
 	if r.Intn(6) == 0 {
 		return c15CallClones(r)
+	}
+	if r.Intn(6) == 0 {
+		return c15NestedClones(r)
 	}
 	p := popCtx{r: r}
 	var mk func() pipeline.Action
